@@ -102,7 +102,11 @@ pub(crate) fn read_u64(input: &[u8], inposp: &mut usize) -> Result<u64, Error> {
     let mut any: bool = false;
     while *inposp < input.len() && b"0123456789".contains(&input[*inposp]) {
         any = true;
-        value = (value * 10) + (input[*inposp] - 48) as u64;
+        let digit = (input[*inposp] - 48) as u64;
+        value = match value.checked_mul(10).and_then(|v| v.checked_add(digit)) {
+            Some(v) => v,
+            None => return Err(InnerError::JsonBad("Number too large", *inposp).into()),
+        };
         *inposp += 1;
     }
     if !any {
@@ -116,7 +120,11 @@ pub(crate) fn read_kind(input: &[u8], inposp: &mut usize) -> Result<u16, Error> 
     let mut any: bool = false;
     while *inposp < input.len() && b"0123456789".contains(&input[*inposp]) {
         any = true;
-        value = (value * 10) + (input[*inposp] - 48) as u32;
+        let digit = (input[*inposp] - 48) as u32;
+        value = match value.checked_mul(10).and_then(|v| v.checked_add(digit)) {
+            Some(v) => v,
+            None => return Err(InnerError::JsonBad("Kind larger than 65535", *inposp).into()),
+        };
         *inposp += 1;
     }
     if !any {
